@@ -66,12 +66,6 @@ def sorted (lt : α → α → Bool) (x : List α) (reverse : Bool) : List α :=
 def npSorted (lt : α → α → Bool) (x : List α) : List α :=
   if x.length ≤ 1 then x else run (fun a b => !(lt b a)) (sortNet x.length) x
 
-/-- decoding of the comparator tables written by the extractor (harness/props/c29.py): `len` comparators,
-comparator k is the base-65536 digit `i + 256*j` number k of `code` -/
-def decodeNet : Nat → Nat → Net
-  | 0, _ => []
-  | len + 1, code => (code % 256, (code / 256) % 256) :: decodeNet len (code / 65536)
-
 /-! ### bit-sliced evaluation on 0-1 inputs: column `i` is a Nat whose bit `m` is the value at
 position `i` for input number `m`; one pass evaluates the network on all inputs at once -/
 
